@@ -92,10 +92,14 @@ def jump_residuals(cls, params, t, h):
     return dict(x=x, D=D, inner=st[0], outer=st[1], res=res)
 
 
-def rankine_hugoniot(name, cls, gen_params, tol=RH_TOL):
+def rankine_hugoniot(name, cls, gen_params, tol=RH_TOL, first=None):
+    """`first`: (params, t) tried before the random cases (the witness of a Lean `Finding` theorem)"""
+    state = dict(n=0)
+
     def gen(rng):
-        p, t = gen_params(rng)
-        return dict(cls=cls, params=p, t=t, h=3e-3 * t)
+        state['n'] += 1
+        p, t = first if (first is not None and state['n'] == 1) else gen_params(rng)
+        return dict(cls=cls, params=dict(p), t=t, h=3e-3 * t)
 
     def check(c):
         try:
@@ -143,7 +147,9 @@ def _cog21_params(rng):
 
 rh_noh = rankine_hugoniot('Noh', 'exactpack.solvers.noh.noh1:Noh', _noh_params)
 rh_cog19 = rankine_hugoniot('Cog19', 'exactpack.solvers.cog.cog19:Cog19', _cog19_params)
-rh_cog20 = rankine_hugoniot('Cog20', 'exactpack.solvers.cog.cog20:Cog20', _cog20_params)
+# first case = the witness of EPV.C02.cog20_jump_fails: the class defaults at t = 1/2
+rh_cog20 = rankine_hugoniot('Cog20', 'exactpack.solvers.cog.cog20:Cog20', _cog20_params,
+                            first=(dict(geometry=3, gamma=1.4, rho0=1.8, u0=2.3, a=0.3, Gamma=40.0), 0.5))
 rh_cog21 = rankine_hugoniot('Cog21', 'exactpack.solvers.cog.cog21:Cog21', _cog21_params)
 
 # ------------------------------------------------------------------------------------------
